@@ -43,13 +43,13 @@ func crowd(n int) func() {
 	e.Define("park", park)
 	e.Define("started", started)
 	e.Define("n", int64(n))
-	// the crowd's own run is bounded: if a changed interpreter makes it wait (a cap on goroutines, say) it is given up after 3 s and whatever is parked by then stays parked
-	ctx, stop := context.WithTimeout(context.Background(), 3*time.Second)
+	// the crowd's own run is bounded: if a changed interpreter makes it wait (a cap on goroutines, say) the wait for it is given up after 1 s; whatever is parked by then stays parked until the observed run is over
+	ctx, stop := context.WithCancel(context.Background())
 	go func() {
 		defer func() { recover() }()
 		vm.ExecuteContext(ctx, e, nil, "for i = 0; i < n; i++ {\n go func() {\n  started <- 1\n  <-park\n }()\n}")
 	}()
-	deadline := time.After(3 * time.Second)
+	deadline := time.After(time.Second)
 wait:
 	for i := 0; i < n; i++ {
 		select {
